@@ -5,7 +5,7 @@ import z3
 import frontend
 import ops
 from ops import SB, SI, SR, truthy, equal, zand, zor, znot, asz, lift
-from core import (SVal, TupleVal, LocalDict, FuncVal, ClassVal, ModuleVal, ExcVal, KRef, KEnum, KName,
+from core import (KAny, SVal, TupleVal, LocalDict, FuncVal, ClassVal, ModuleVal, ExcVal, KRef, KEnum, KName,
                   KInt, KReal, KBool, KStr, KOpt, KList, KDict, KSet, KCounter, KTuple, KExt, KVec, KVec3,
                   CheckerError, fresh_name, fresh_val, I, B, R)
 from engine_expr import is_exc
@@ -514,6 +514,15 @@ class CallMixin:
         if name in self.EXC_NAMES or (cv.module is None and name not in self.reg.classes):
             return [(st, ExcVal(name, args=tuple(args)))]
         if name in self.reg.enums:
+            # Enum(value): members whose value is their own name (scheduler.State); a literal picks the member, an
+            # opaque payload field goes through the uninterpreted decoder tok_<enum> (a stored value is a member)
+            members = self.reg.enums[name]['members']
+            if len(args) == 1 and isinstance(args[0], str) and args[0] in members:
+                return [(st, SVal(KEnum(name), [z3.IntVal(members.index(args[0]) + 1)]))]
+            if len(args) == 1 and isinstance(args[0], SVal) and args[0].kind == KAny:
+                dec = z3.Function('tok_' + name.lower(), I, I)(args[0].z)
+                st.assume(z3.And(dec >= 1, dec <= len(members)))
+                return [(st, SVal(KEnum(name), [dec]))]
             raise CheckerError('enum construction')
         mod = frontend.module(cv.module) if cv.module else None
         if name not in self.reg.classes:
